@@ -153,12 +153,25 @@ def operand_int_type(se, o):
     return ty.s if ty is not None else None
 
 
-def check(ctx, rep):
+def totality(ctx, rep, rule, root_pred, what):
+    """Re-file this module's obligations for everything reachable from the entry points selected
+    by root_pred under `rule` of another property: "for every input the value is F(input)" has
+    "a value comes out for every input" as a necessary condition - a new panic path on some
+    inputs (an assertion, an index, an unwrap) breaks the functional property for those inputs."""
+    roots = [r for r in entry_points(ctx) if root_pred(r)]
+    rep.check(bool(roots), rule, "crate", "entry-points", "%d entry points of %s" % (len(roots), what), "no entry point of %s found: anchor lost" % what)
+    if roots:
+        clo = closure(ctx, roots)
+        check(ctx, util.Refile(rep, rule, None, lambda fn: fn in clo), roots=roots)
+
+
+def check(ctx, rep, roots=None):
     fb = ctx.fb
     world = ranges.World(ctx)
-    roots = entry_points(ctx)
-    need = 90 if DEFAULT_FEATURES <= ctx.features else 40
-    rep.check(len(roots) >= need, "entry-points", "crate", "enumerated", "%d publicly reachable functions of the peer-facing modules are entry points" % len(roots), "only %d entry points found (expected >= %d): anchor lost" % (len(roots), need))
+    if roots is None:
+        roots = entry_points(ctx)
+        need = 90 if DEFAULT_FEATURES <= ctx.features else 40
+        rep.check(len(roots) >= need, "entry-points", "crate", "enumerated", "%d publicly reachable functions of the peer-facing modules are entry points" % len(roots), "only %d entry points found (expected >= %d): anchor lost" % (len(roots), need))
     clo = closure(ctx, roots)
     rep.stats["closure"] = len(clo)
     r32_sinks = set(COPY_SITES) | {p for p in fb.bodies if p.endswith("as std::convert::From<bigint::Integer>>::from") and p.startswith("<key::")}
